@@ -5,6 +5,8 @@ import Hpfeeds.Lemmas.AioClient
 import Hpfeeds.Lemmas.BlkSession
 import Hpfeeds.Lemmas.BlkClient
 import Hpfeeds.Lemmas.AioTrace
+import Hpfeeds.Lemmas.AioPrompt
+import Hpfeeds.Lemmas.BlkPrompt
 import Hpfeeds.Lemmas.BlkSessionTrace
 import Hpfeeds.Lemmas.BlkClientTrace
 namespace Hpfeeds.C12
@@ -42,12 +44,32 @@ theorem handed_is_observable (cfg : Cfg) (es : List Ev) :
   rw [run_handed, ← (handed_in_order cfg es).1]
   exact List.prefix_append _ _
 
+/-- **Nothing is withheld** ("EVERY OP_PUBLISH the broker sends is handed"): after ANY event sequence, if the
+    bytes received on a connection the client has not dropped are well-formed frames `fs` followed by an
+    incomplete rest `t` — however they were split across reads, several frames in one read included — then the
+    frames dispatched on it are EXACTLY `fs` (so by `handed_in_order` their OP_PUBLISHes are handed or queued)
+    and exactly `t` is still buffered: no complete frame waits in the parser for more traffic. -/
+theorem nothing_withheld (cfg : Cfg) (es : List Ev) (c : Conn) (hc : (run cfg es).1.conn = some c)
+    (hcl : c.closing = false) (fs : List Frame) (t : Bytes) (hf : ∀ f ∈ fs, f.WF) (ht : header t = .wait)
+    (hin : c.inbound = fs.flatMap enc ++ t) : c.processed = fs ∧ c.buf = t :=
+  every_frame_dispatched cfg es c hc hcl fs t hf ht hin
+
+/-- … in its plain form: the buffered rest of a live connection never begins a complete frame -/
+theorem buffer_is_incomplete (cfg : Cfg) (es : List Ev) (c : Conn) (hc : (run cfg es).1.conn = some c)
+    (hcl : c.closing = false) : header c.buf = .wait :=
+  winv_run cfg es c hc hcl
+
 /-! non-vacuity (kernel-evaluated): two PUBLISH frames split at an arbitrary byte, one early read() -/
 def exCfg : Cfg := { ident := [109], secret := [115], H := id }
 def exInfo : Bytes := [0,0,0,12,1,2,104,112,9,8,7,6]
 def exPub (x : UInt8) : Bytes := [0,0,0,10,3,1,97,1,99,x]
 example : (run exCfg [.read, .accept, .data (exInfo ++ (exPub 1).take 3), .data ((exPub 1).drop 3 ++ exPub 2), .read]).1.handedLog =
     [([97],[99],[1]), ([97],[99],[2])] := by decide +kernel
+/-- three frames coalesced into ONE read (OP_INFO and two PUBLISHes) plus the first bytes of a fourth: all three are
+    dispatched at once, both messages reach the two reads, the partial frame stays buffered -/
+example : (fun r : State × List Out => (r.1.handedLog, r.1.conn.map (fun c => (c.processed.length, c.buf, c.closing))))
+    (run exCfg [.accept, .data (exInfo ++ exPub 1 ++ exPub 2 ++ (exPub 3).take 4), .read, .read]) =
+    ([([97],[99],[1]), ([97],[99],[2])], some (3, [0,0,0,10], false)) := by decide +kernel
 
 end Aio
 /-! ## blocking thread session: read() of the session -/
@@ -67,6 +89,17 @@ theorem handed_in_order (cfg : Cfg) (es : List Ev) :
 theorem frames_are_the_bytes (cfg : Cfg) (es : List Ev) :
     (run cfg es).1.inbound = (run cfg es).1.processed.flatMap enc ++ (run cfg es).1.ubuf :=
   (run_inv cfg es).b.bytes
+
+/-- **Nothing is withheld** (blocking thread session): after ANY event sequence, while the reactor is alive and the
+    protocol has not closed the socket, if the bytes `recv()` returned on the current connection are well-formed
+    frames `fs` followed by an incomplete rest `t` (any slicing, `recv(1024)` included), the frames dispatched
+    are EXACTLY `fs` and exactly `t` is left in the unpacker. -/
+theorem nothing_withheld (cfg : Cfg) (es : List Ev)
+    (hd : (run cfg es).1.dead = false) (hc : (run cfg es).1.sockClosed = false)
+    (fs : List Frame) (t : Bytes) (hf : ∀ f ∈ fs, f.WF) (ht : header t = .wait)
+    (hin : (run cfg es).1.inbound = fs.flatMap enc ++ t) :
+    (run cfg es).1.processed = fs ∧ (run cfg es).1.ubuf = t :=
+  every_frame_dispatched cfg es hd hc fs t hf ht hin
 
 /-- the observable form (as for the asyncio session) -/
 theorem handed_is_observable (cfg : Cfg) (es : List Ev) :
